@@ -46,6 +46,8 @@ thread_local! {
 struct Ctx {
     clock: Clock,
     program_stack: Vec<Pubkey>,
+    /// account keys of the instruction executing at each level of the invoke stack
+    account_stack: Vec<Vec<Pubkey>>,
     logs: Vec<String>,
     events: Vec<Vec<u8>>,
     cpi_error: Option<ProgramError>,
@@ -180,6 +182,8 @@ struct Job {
     ptr: usize,
     clock: Clock,
     program_id: Pubkey,
+    /// keys of the instruction's accounts (a CPI can only target a program that is among the caller's instruction accounts)
+    account_keys: Vec<Pubkey>,
 }
 enum Reply {
     Done { ret: u64, logs: Vec<String>, events: Vec<Vec<u8>>, cpi_error: Option<ProgramError>, steps: Vec<whirlpool::verif_trace::StepTrace> },
@@ -203,6 +207,7 @@ fn spawn_executor() -> Executor {
                     let mut c = c.borrow_mut();
                     c.clock = job.clock.clone();
                     c.program_stack = vec![job.program_id];
+                    c.account_stack = vec![job.account_keys.clone()];
                     c.logs.clear();
                     c.events.clear();
                     c.cpi_error = None;
@@ -229,14 +234,14 @@ fn spawn_executor() -> Executor {
 /// number of program panics seen by this process (each retires one executor thread)
 pub static PANICS: std::sync::atomic::AtomicU64 = std::sync::atomic::AtomicU64::new(0);
 
-fn run_entrypoint(ptr: *mut u8, clock: &Clock, program_id: Pubkey) -> Reply {
+fn run_entrypoint(ptr: *mut u8, clock: &Clock, program_id: Pubkey, account_keys: Vec<Pubkey>) -> Reply {
     EXECUTOR.with(|e| {
         let mut e = e.borrow_mut();
         if e.is_none() {
             *e = Some(spawn_executor());
         }
         let ex = e.as_ref().unwrap();
-        ex.job_tx.send(Job { ptr: ptr as usize, clock: clock.clone(), program_id }).expect("executor alive");
+        ex.job_tx.send(Job { ptr: ptr as usize, clock: clock.clone(), program_id, account_keys }).expect("executor alive");
         let reply = ex.reply_rx.recv().expect("executor reply");
         if matches!(reply, Reply::Panicked(_)) {
             // that executor thread is parked forever inside the panic hook; start a fresh one next time
@@ -380,6 +385,12 @@ fn cpi(ix: &Instruction, infos: &[AccountInfo], signers_seeds: &[&[&[u8]]]) -> P
             .map_err(|_| ProgramError::InvalidSeeds)?;
         pda_signers.push(k);
     }
+    // the runtime resolves the callee among the accounts of the CALLER's instruction: a program that was not passed to the caller
+    // cannot be invoked by it (InstructionError::MissingAccount, "Unknown program")
+    let known = CTX.with(|c| c.borrow().account_stack.last().map(|a| a.contains(&ix.program_id)).unwrap_or(true));
+    if !known {
+        return Err(ProgramError::Custom(0x4d49_5353)); // "MISS"
+    }
     let mut callee_infos: Vec<AccountInfo> = Vec::with_capacity(ix.accounts.len());
     for m in &ix.accounts {
         let info = infos
@@ -401,14 +412,48 @@ fn cpi(ix: &Instruction, infos: &[AccountInfo], signers_seeds: &[&[&[u8]]]) -> P
     CTX.with(|c| {
         let mut c = c.borrow_mut();
         c.program_stack.push(ix.program_id);
+        c.account_stack.push(ix.accounts.iter().map(|m| m.pubkey).collect());
         c.return_data = None;
     });
     let r = dispatch(&ix.program_id, &callee_infos, &ix.data);
-    CTX.with(|c| c.borrow_mut().program_stack.pop());
+    CTX.with(|c| {
+        let mut c = c.borrow_mut();
+        c.program_stack.pop();
+        c.account_stack.pop();
+    });
     r
 }
 
 static METADATA_PROGRAM: std::sync::OnceLock<Pubkey> = std::sync::OnceLock::new();
+
+/// Two transfer-hook programs (Token-2022 `TransferHook` extension) executed natively: they accept `Execute` when the source and the
+/// destination are Token-2022 accounts flagged as `transferring` (what a canonical hook asserts) and need no extra accounts.
+pub fn hook_program(n: u8) -> Pubkey {
+    let mut b = [0x5au8; 32];
+    b[0] = 0x0b;
+    b[31] = n;
+    Pubkey::new_from_array(b)
+}
+/// number of `Execute` calls the native hook programs accepted in this process (instructions run on executor threads)
+pub static HOOK_CALLS: std::sync::atomic::AtomicU64 = std::sync::atomic::AtomicU64::new(0);
+fn hook_process(infos: &[AccountInfo], data: &[u8]) -> ProgramResult {
+    use spl_token_2022::extension::{transfer_hook::TransferHookAccount, BaseStateWithExtensions, StateWithExtensions};
+    // spl-transfer-hook-interface:execute
+    const EXECUTE: [u8; 8] = [105, 37, 101, 197, 75, 251, 102, 26];
+    if data.len() != 16 || data[..8] != EXECUTE || infos.len() < 4 {
+        return Err(ProgramError::InvalidInstructionData);
+    }
+    for i in [0usize, 2] {
+        let d = infos[i].try_borrow_data()?;
+        let acc = StateWithExtensions::<spl_token_2022::state::Account>::unpack(&d)?;
+        let ext = acc.get_extension::<TransferHookAccount>()?;
+        if !bool::from(ext.transferring) {
+            return Err(ProgramError::Custom(0x7dc8_3500));
+        }
+    }
+    HOOK_CALLS.fetch_add(1, std::sync::atomic::Ordering::Relaxed);
+    Ok(())
+}
 
 fn dispatch(program_id: &Pubkey, infos: &[AccountInfo], data: &[u8]) -> ProgramResult {
     if *program_id == system_program::ID {
@@ -421,6 +466,8 @@ fn dispatch(program_id: &Pubkey, infos: &[AccountInfo], data: &[u8]) -> ProgramR
         spl_associated_token_account::processor::process_instruction(program_id, infos, data)
     } else if *program_id == spl_memo::ID {
         spl_memo::processor::process_instruction(program_id, infos, data)
+    } else if *program_id == hook_program(1) || *program_id == hook_program(2) {
+        hook_process(infos, data)
     } else if *program_id == *METADATA_PROGRAM.get_or_init(|| std::str::FromStr::from_str("metaqbxxUerdq28cj1RbAWkYQm3ybzjb6a8bt518x1s").unwrap()) {
         // Metaplex token-metadata has no processor crate in the cache: its CPI (only reached from the
         // `*_with_metadata` instructions) is accepted without effect.  Nothing is asserted about metadata accounts.
@@ -583,7 +630,7 @@ impl Bank {
         let ptr = backing.as_mut_ptr() as *mut u8;
         unsafe { std::ptr::copy_nonoverlapping(buf.as_ptr(), ptr, buf.len()) };
 
-        let (mut result, logs, events, steps) = match run_entrypoint(ptr, &self.clock, ix.program_id) {
+        let (mut result, logs, events, steps) = match run_entrypoint(ptr, &self.clock, ix.program_id, ix.accounts.iter().map(|m| m.pubkey).collect()) {
             Reply::Done { ret, logs, events, cpi_error, steps } => {
                 let result = if let Some(e) = cpi_error {
                     Err(u64::from(e))
@@ -664,7 +711,7 @@ impl Bank {
                 infos.push(AccountInfo { key: k, lamports: Rc::new(RefCell::new(l)), data: Rc::new(RefCell::new(data)), owner: o, rent_epoch: 0, is_signer: signer, is_writable: writable, executable: false });
             }
             let ordered: Vec<AccountInfo> = ix.accounts.iter().map(|m| infos.iter().find(|i| *i.key == m.pubkey).unwrap().clone()).collect();
-            CTX.with(|c| { let mut c = c.borrow_mut(); c.clock = self.clock.clone(); c.program_stack = vec![ix.program_id]; });
+            CTX.with(|c| { let mut c = c.borrow_mut(); c.clock = self.clock.clone(); c.program_stack = vec![ix.program_id]; c.account_stack = vec![ix.accounts.iter().map(|m| m.pubkey).collect()]; });
             res = dispatch(&ix.program_id, &ordered, &ix.data);
             if res.is_ok() {
                 for inf in &infos {
